@@ -105,7 +105,9 @@ func (ym YamlMap) GetValue(key string) *YamlNode {
 func (ym *YamlMap) setValue(item *YamlKeyValue) {
 	for i := range ym.Items {
 		if ym.Items[i].Key.Value == item.Key.Value {
-			ym.Items[i].Value = item.Value
+			// Replace the element: the old one may be shared with the map this one was cloned from
+			// (MergeMaps), writing through it would change the group labels for every other rule.
+			ym.Items[i] = &YamlKeyValue{Key: ym.Items[i].Key, Value: item.Value}
 			return
 		}
 	}
